@@ -15,7 +15,8 @@ LEVEL = "exploration"
 RULE = (
     "Every subcommand is run as a real subprocess (python -m wv.subrun <subcommand> ..., which hands over to whatshap's own "
     "main()) on generated order-sensitive inputs (several samples/families whose names hash differently, cost ties, equal-score "
-    "reads, several polyphase blocks, several contigs) and, for hapcut2vcf / find_snv_candidates, on the "
+    "reads, several polyphase blocks, several contigs; polyphase also with a sample heterozygous everywhere whose reads reach only "
+    "part of the contig, and with a partially pre-phased input under --use-prephasing) and, for hapcut2vcf / find_snv_candidates, on the "
     "repository's tests/data. Sweeps per input: PYTHONHASHSEED in {0,1,2,3,random,random}, plus polyphase --threads {1,2,3} with "
     "seeded random delays injected into phase_single_block_mt, haplotag --output-threads {1,2,4}, and one plain repetition. Oracle: "
     "all output files of all runs of one input must be identical after dropping the recorded command line (##commandline, @PG CL) "
@@ -27,11 +28,11 @@ REQUIRED_COUNTERS = ["subprocess_runs", "inputs_compared", "distinct_probe_order
 ASSUMPTIONS = ["hash seeds and schedules are sampled, not enumerated", "polyphasegenetic and learn are not driven: the repository ships no end-to-end input for them (tests/data only feeds unit tests)"]
 WATCHDOG = {"quick": 900, "thorough": 2400}
 KINDS = ["phase", "phase_ped", "phase_quartet", "genotype", "haplotag", "polyphase", "compare", "stats", "unphase", "split",
-         "haplotagphase", "hapcut2vcf", "find_snv"]
+         "haplotagphase", "hapcut2vcf", "find_snv", "polyphase_allhet", "polyphase_prephased"]
 
 
 def lanes(tier):
-    return [("plain", "plain", len(KINDS) * (2 if tier == "quick" else 12))]
+    return [("plain", "plain", len(KINDS) * (2 if tier == "quick" else 12)), ("poly", "plain", 24 if tier == "quick" else 300)]
 
 
 def norm_text(path):
@@ -138,16 +139,37 @@ def build_input(kind, rng, tmp):
             return ["split", "--output-h1", h1, "--output-h2", h2, "--output-untagged", un, "--read-lengths-histogram", hist, sim.bams[0], lst], [h1, h2, un, hist]
 
         return make, samples, variants
-    if kind == "polyphase":
+    if kind.startswith("polyphase"):
         p = {"ploidy": rng.choice([3, 4]), "n_chrom": 1, "chrom_len": 4000, "n_var": 24, "samples": ["zeta", "alpha"], "depth": 6, "read_len": (150, 500),
              "error_rate": 0.02, "coverage_gaps": 3, "collapse": 0.3}
+        mode = kind.partition("_")[2] or "plain"
+        if mode == "allhet":
+            # one sample heterozygous everywhere whose reads reach only part of the contig, the other covered everywhere
+            first = rng.choice(p["samples"])
+            p["all_het_samples"] = [first]
+            p["read_window"] = {first: (0, rng.choice([1500, 2500]))}
         sim = genome.simulate_poly(rng, tmp, p)
+        vcf_in = sim.vcf
+        more = []
+        if mode == "prephased":
+            # a partial pre-phasing in the input (some heterozygous variants left unphased), used with --use-prephasing
+            doc, _ = genome.truth_phased_doc_poly(sim, rng, block_len=(4, 12))
+            for r in doc.records:
+                for call in r["calls"]:
+                    if "|" in call["GT"] and rng.random() < 0.4:
+                        call["GT"] = "/".join(sorted(call["GT"].split("|")))
+                        call["PS"] = "."
+            vcf_in = os.path.join(tmp, "prephased.vcf")
+            doc.write(vcf_in)
+            more = ["--use-prephasing"]
         variants = variants + [("t2d%d" % k, {"PYTHONHASHSEED": "0", "WV_DELAY_SEED": str(k)}, ["--threads", "2"]) for k in range(2)]
         variants += [("t3d%d" % k, {"PYTHONHASHSEED": "1", "WV_DELAY_SEED": str(10 + k)}, ["--threads", "3"]) for k in range(2)]
 
+        bcs = rng.choice([5, 5, 4, 2])
+
         def make(outdir):
             out = os.path.join(outdir, "out.vcf")
-            return ["polyphase", "--ploidy", str(p["ploidy"]), "--reference", sim.fasta, "-o", out, "-B", "5", sim.vcf, sim.bams[0]], [out]
+            return ["polyphase", "--ploidy", str(p["ploidy"]), "--reference", sim.fasta, "-o", out, "-B", str(bcs)] + more + [vcf_in, sim.bams[0]], [out]
 
         return make, p["samples"], variants
     if kind in ("compare", "stats", "unphase"):
@@ -198,10 +220,16 @@ def run_case(idx, rng, tier, lane):
     keys = set()
     viol = []
     kind = KINDS[idx % len(KINDS)]
+    if lane == "poly":
+        # many polyphase inputs with a slim sweep each (hash seeds 0-5 for the sample order, 1/2/3 worker processes)
+        kind = ["polyphase_prephased", "polyphase_allhet", "polyphase"][idx % 3]
     tmp = tempfile.mkdtemp(prefix="c16-", dir=os.environ.get("WV_SCRATCH"))
     sample = {"subcommand": kind}
     try:
         make, probe_names, variants = build_input(kind, rng, tmp)
+        if lane == "poly":
+            variants = [v for v in variants if v[0] in ("hs0#0", "hs1#1", "hs2#2", "hs3#3", "t2d0", "t3d0")]
+            variants += [("hs%d" % k, {"PYTHONHASHSEED": str(k)}, []) for k in (4, 5)]
         probe_out = os.path.join(tmp, "probe.jsonl")
         results = {}
         for label, env, extra in variants:
